@@ -105,7 +105,14 @@ func (g *sGraph) emit(m *openfgav1.AuthorizationModel, td *openfgav1.TypeDefinit
 			if cond == "" {
 				cond = NoCond
 			}
-			e := g.findEdge(parent, target, DirectEdge, "")
+			// one edge per distinct target of THIS direct assignment (conditions folded into it); a direct assignment
+			// written twice under one operator (JSON only) has its own edges, like any repeated operand
+			var e *sEdge
+			for _, ge := range group {
+				if ge.to == target && ge.kind == DirectEdge {
+					e = ge
+				}
+			}
 			if e == nil {
 				e = &sEdge{from: parent, to: target, kind: DirectEdge, conds: []string{cond}}
 				parent.out = append(parent.out, e)
